@@ -11,6 +11,7 @@ import importlib.util
 import json
 import os
 import re
+import subprocess
 import sys
 import time
 
@@ -104,6 +105,15 @@ def run_unit(uname, tier, prop):
             if m:
                 missing.add(m.group(1))
         added = [n for n in sorted(missing) if uf.append_missing_fn(n)]
+        if not added:
+            # an auto-added helper that itself does not compile here: stub it (arbitrary result)
+            broken = set()
+            for d in v["diags"]:
+                for (l0, _l1, _p, _lab) in d.spans:
+                    t = uf.tag_at(l0)
+                    if t is not None and t.fn in getattr(uf, "auto_added", []) and t.fn not in getattr(uf, "auto_stubbed", []):
+                        broken.add(t.fn)
+            added = [n for n in sorted(broken) if uf.stub_auto_added(n)]
         if not added:
             break
         with open(path, "w") as f:
@@ -326,6 +336,11 @@ def main():
                 functions.append({k: it[k] for k in ("name", "kind", "where", "sha256_16", "skeleton")})
         for s in getattr(u.mod, "UNVERIFIED", {}).get(prop, []):
             assumptions.append("%s: not under contract: %s" % (u.unit, s))
+        for n in getattr(u.uf, "auto_added", []) if u.uf is not None else []:
+            if n in getattr(u.uf, "auto_stubbed", []):
+                assumptions.append("%s: helper `%s` (called by code under contract, not named by the unit) could not be extracted; used as an arbitrary-result stub: assumed to terminate, not to panic and to have no side effects" % (u.unit, n))
+            else:
+                assumptions.append("%s: helper `%s` (called by code under contract, not named by the unit) extracted and verified for panic-freedom only" % (u.unit, n))
         if u.verus:
             smt_s += u.verus["smt_s"]
             checker_cmds.append(u.verus["cmd"])
@@ -467,6 +482,26 @@ def main():
         if rc == 0:
             rc = 2
 
+    # thorough tier: mutation self-test of the contracts (does a small breaking edit of the extracted
+    # source fail a named obligation? does a benign edit stay green?).  Strength report only:
+    # a surviving mutant is a weakness of the CHECK, not a violation of the property.
+    mutation = None
+    if tier == "thorough" and rc == 0 and not a.raw_json and not os.environ.get("VERIF_NO_MUTATION"):
+        try:
+            mp = subprocess.run([sys.executable, os.path.join(ROOT, "vc", "mutate.py"), prop],
+                                capture_output=True, text=True, timeout=3600)
+            ml = [l for l in mp.stdout.split("\n") if l.startswith("{")]
+            res = json.loads(ml[-1])["mutants"] if ml else []
+            mutation = {"mutants": len(res),
+                        "killed": sum(1 for r in res if r["status"] == "killed"),
+                        "survived": [r["name"] for r in res if r["status"] == "SURVIVED"],
+                        "benign_kept_green": sum(1 for r in res if r["status"] == "kept-green"),
+                        "benign_false_alarms": [r["name"] for r in res if r["status"] == "FALSE-ALARM"],
+                        "not_applicable": [r["name"] for r in res if r["status"] == "not-applicable"],
+                        "errors": [r["name"] for r in res if r["status"] == "error"]}
+        except Exception as e:  # noqa: BLE001
+            mutation = {"error": str(e)[:200]}
+
     wall = time.time() - t0
     ev = {
         "property_id": prop, "tier": tier, "seed": seed, "level": "proof",
@@ -486,6 +521,7 @@ def main():
             "undecided": undecided,
             "unclaimed_failures": unclaimed,
             "bounded": bounded,
+            "mutation_selftest": mutation,
             "canaries": {u.unit: "%d/%d failed as required" % (getattr(u, "canaries_ok", 0), getattr(u, "canaries_total", 0)) for u in results},
             "units": units,
             "exit_status": rc,
@@ -509,6 +545,11 @@ def main():
         len(known_hits), len(undecided), smt_s, wall))
     for u in undecided:
         print("UNDECIDED: " + u)
+    if mutation and "mutants" in mutation:
+        print("mutation self-test: %d mutants, %d killed, %d survived%s; %d benign edits kept green, %d false alarms" % (
+            mutation["mutants"], mutation["killed"], len(mutation["survived"]),
+            (" (" + ", ".join(mutation["survived"][:6]) + ")") if mutation["survived"] else "",
+            mutation["benign_kept_green"], len(mutation["benign_false_alarms"])))
     for ln in lines:
         print(ln)
     return rc
